@@ -176,12 +176,16 @@ func zzC01_avp() {
 	a := NewAVP(code, flags, vendor, val)
 	img, err := a.Serialize()
 	vAssert(err == nil, "valid AVP serialises")
+	vObserveBytes("image", img)
 	ref := zzRefAVP(code, flags, vendor, refPayload)
 	zzBytesEq(img, ref, "C02: AVP image equals the reference RFC 6733 encoding")
 	vAssert(a.Len() == len(ref), "C02: Len is the padded size")
 	back, derr := DecodeAVP(img, app, d)
 	vAssert(derr == nil, "C01: image of a valid AVP decodes")
+	vObserve("decoded", zzB2U(derr == nil))
 	if derr == nil {
+		vObserve("back.Code", uint64(back.Code))
+		vObserveBytes("back.Data", back.Data.Serialize())
 		vAssert(back.Code == code && back.Flags == flags && back.VendorID == vendor, "C01: code, flags and vendor id survive the round trip")
 		vAssert(back.Data.Type() == val.Type(), "C01: data type survives the round trip")
 		zzBytesEq(back.Data.Serialize(), val.Serialize(), "C01: typed value survives the round trip")
@@ -278,6 +282,8 @@ func zzC01_wire() {
 	}
 	out, serr := m.Serialize()
 	vAssert(serr == nil, "C01: and serialises")
+	vObserve("navps", uint64(len(m.AVP)))
+	vObserveBytes("out", out)
 	zzBytesEq(out, wire, "C01: a well-formed wire message that is read and then serialised reproduces its bytes exactly")
 	vReach("C01_wire")
 }
